@@ -13,6 +13,7 @@ Oracle: reference model written from the property statement (retryable = connect
 else surfaces at once as a Rally error naming the cause).
 """
 import itertools
+import hashlib
 import json
 import os
 import sys
@@ -46,7 +47,7 @@ RULE = (
     "or a per-item bulk error occurred. Distinct = distinct canonical JSON."
 )
 ASSUMPTIONS = [
-    "one call of the wrapped client function = one operation request on the wire (the product-check 'GET /' that RallySyncElasticsearch issues on a fresh client object is answered 200 and not counted; bulk requests carry < 5000 documents = one chunk)",
+    "one call of the wrapped client function = one operation request on the wire (the product-check 'GET /' that RallySyncElasticsearch issues on a fresh client object is answered 200 and not counted; bulk requests carry < 5000 documents = one chunk; flushes of 5001-10001 documents, which go out as two or three bulk requests inside one store call, are a class of their own: a fault on any chunk ends the attempt and a retry starts over)",
     "statuses the operation itself declares benign are successes: HEAD 404 (exists/template_exists -> False), 404 for delete, 400 for create_index (ignore= in EsClient)",
     "'naming the cause' is accepted as: the error type text of the response / failed bulk item, or the HTTP status, or the transport error text; for connection errors, timeouts, 401/403 and body-less (HEAD) responses host and port of the store",
     "the i-th pause must lie in [2^(i-1), 2^(i-1)+1) (DESIGN.md reading of 'exponentially growing'); the jitter value itself is not checked",
@@ -57,6 +58,7 @@ BUDGET = {"quick": 1500, "thorough": 15000}
 REQUIRED_CLASSES = {
     "exhausted": 100,
     "bulk-item-error": 100,
+    "flush-of-several-chunks": 60,
     "attempts>=3-two-retryable-classes": 100,
     "success-after-retries": 100,
     "auth-error": 100,
@@ -324,7 +326,117 @@ def _run_fresh_process(case, obs):
     obs.mark_nontrivial(True)
 
 
+# ------------------------------------------------------------------------------------------------ flushes of more than one chunk
+CHUNK = 5000  # metrics.EsClient.bulk_index sends chunks of 5000 documents (one bulk request each)
+
+
+def _chunked_model(case):
+    """(wire requests as (attempt, chunk index), number of pauses, end) for a flush of several chunks: a fault on any chunk ends the
+    attempt (helpers.bulk raises at the first failing chunk), a retryable one makes the whole call start over after a pause"""
+    sizes = []
+    left = case["n_items"]
+    while left > 0:
+        sizes.append(min(CHUNK, left))
+        left -= sizes[-1]
+    script = list(case["script"])
+    wire = []
+    for attempt in range(MAX_RETRIES + 1):
+        failed = None
+        for ci, _ in enumerate(sizes):
+            outcome = script[len(wire)] if len(wire) < len(script) else "ok"
+            wire.append((attempt, ci))
+            if outcome != "ok":
+                failed = outcome
+                break
+        if failed is None:
+            return sizes, wire, attempt, "success"
+        status = int(failed.partition(":")[2]) if ":" in failed else None
+        retryable = failed in ("conn_timeout", "conn_error") or status in RETRYABLE_STATUS
+        if not retryable:
+            return sizes, wire, attempt, "error"
+    return sizes, wire, MAX_RETRIES, "exhausted"
+
+
+def _run_chunked(case, obs):
+    es = _STATE["es"]
+    sizes, want_wire, want_pauses, end = _chunked_model(case)
+    script = case["script"]
+    seen = []  # documents per wire request
+    sleeps = []
+
+    def wire(method, target, **kw):
+        if method == "GET" and target == "/":
+            return TransportApiResponse(_meta(200), {"version": {"number": "8.6.1", "build_flavor": "default"}, "tagline": "You Know, for Search"})
+        n = len(seen)
+        if n >= len(want_wire) + 3 * len(sizes):
+            raise _Runaway()
+        body = kw.get("body")
+        docs = len(body) // 2 if isinstance(body, (list, tuple)) else (body.count(b"\n") if isinstance(body, bytes) else str(body).count("\n")) // 2
+        seen.append(docs)
+        outcome = script[n] if n < len(script) else "ok"
+        head, _, arg = outcome.partition(":")
+        if outcome == "ok":
+            return TransportApiResponse(_meta(200), _bulk_body([201] * docs, n + 1))
+        if outcome == "conn_timeout":
+            raise elasticsearch.ConnectionTimeout(f"wire-fault-{n + 1}")
+        if outcome == "conn_error":
+            raise elasticsearch.ConnectionError(f"wire-fault-{n + 1}")
+        if head == "http":
+            status = int(arg)
+            return TransportApiResponse(_meta(status), {"error": {"type": ERROR_TYPE[status], "reason": f"request {n + 1}"}, "status": status})
+        if head == "item":  # one document of this chunk is rejected
+            statuses = [201] * docs
+            statuses[(7 * n + docs // 2) % docs] = int(arg)
+            return TransportApiResponse(_meta(200), _bulk_body(statuses, n + 1))
+        raise core.HarnessError(f"unknown outcome {outcome}")
+
+    es.transport.perform_request = wire
+    es._verified_elasticsearch = True  # pylint: disable=protected-access
+    esrally.time.sleep = sleeps.append
+    random.seed(case.get("seed", 0))
+    c = metrics.EsClient(es)
+    error = raw = None
+    runaway = False
+    try:
+        c.bulk_index("rally-metrics-2026-09", [{"name": "latency", "value": k} for k in range(case["n_items"])])
+    except _Runaway:
+        runaway = True
+    except exceptions.RallyError as e:
+        error = e
+    except core.HarnessError:
+        raise
+    except Exception as e:  # pylint: disable=broad-except
+        if not isinstance(e, (elasticsearch.ApiError, elasticsearch.TransportError)) and type(e).__name__ != "BulkIndexError":
+            raise  # a crash inside the store call (classified by the framework)
+        raw = e
+    finally:
+        esrally.time.sleep = _STATE["real_sleep"]
+        del es.transport.perform_request
+    what = f"bulk_index of {case['n_items']} documents (chunks {sizes}), wire outcomes {script} then ok"
+    obs.cls("flush-of-several-chunks", f"several-chunks:{end}")
+    obs.mark_nontrivial(True)
+    if runaway:
+        obs.violation("chunked/runaway", f"{what}: still sending after {len(seen)} requests, model expects {len(want_wire)}")
+        return
+    if raw is not None:
+        obs.violation("chunked/raw-client-exception", f"{what}: {type(raw).__name__} escaped from the store call instead of being retried / reported as a Rally error: {str(raw)[:200]}")
+        return
+    want_docs = [sizes[ci] for _, ci in want_wire]
+    if not obs.check(seen == want_docs, "chunked/requests", f"{what}: documents per wire request {seen}, expected {want_docs} (a fault ends the attempt, a retry starts over)"):
+        return
+    obs.check(len(sleeps) == want_pauses, "chunked/pauses", f"{what}: {len(sleeps)} pause(s) {sleeps}, expected {want_pauses}")
+    for i, sl in enumerate(sleeps, start=1):
+        obs.check(2 ** (i - 1) <= sl < 2 ** (i - 1) + 1, "chunked/pause-not-exponential", f"{what}: pause {i} is {sl} s; all pauses {sleeps}")
+    if end == "success":
+        obs.check(error is None, "chunked/error-after-success", f"{what}: the last attempt delivered every chunk but the call raised {error!r}")
+    else:
+        obs.check(error is not None, f"chunked/no-error-{end}", f"{what}: must surface as a Rally error but the call returned")
+
+
 def run_case(case, obs):
+    if case.get("chunked"):
+        _run_chunked(case, obs)
+        return
     if case.get("fresh_process"):
         _run_fresh_process(case, obs)
         return
@@ -555,6 +667,14 @@ def _case(draw):
     else:
         k = draw(st.integers(0, 12))
         outcomes = draw(st.lists(st.one_of(retry + retry + [_terminal(op, n_items)]), min_size=k, max_size=k))
+    if int(hashlib.sha256(str(draw(st.integers(0, 2**32))).encode()).hexdigest(), 16) % 10 == 0:
+        # volume: a flush of more than 5000 documents goes out as several bulk requests inside one store call
+        faults = st.sampled_from(["conn_timeout", "conn_error", "http:429", "http:503", "http:504", "item:429", "item:503", "item:400", "item:409", "http:400", "http:401", "http:404"])
+        k = draw(st.integers(1, 5))
+        script = draw(st.lists(st.one_of(st.just("ok"), st.just("ok"), faults), min_size=k, max_size=k))
+        if draw(st.integers(0, 9)) == 0:
+            script = [draw(st.sampled_from(["conn_timeout", "http:503", "item:429"]))] * 12
+        return {"chunked": True, "n_items": draw(st.sampled_from([5001, 5001, 5003, 10000, 10001])), "script": script, "seed": draw(st.integers(0, 2**16))}
     case = {"op": op, "outcomes": outcomes, "seed": draw(st.integers(0, 2**16)), "fresh": draw(st.booleans())}
     if op == "bulk_index":
         case["n_items"] = n_items
